@@ -27,10 +27,9 @@ MANIFEST = {
         "note": "Trusted: Lean kernel + the three standard axioms; hand translation of Variant.hpp into the models (validated by the "
                 "correspondence run, not proved).  Doubles are opaque in the theorems (any semantics of ==, casts, atof, printf %f); the "
                 "driver's IEEE instance (Ieee.lean) is only tested.  libc parsers atoi/strtoul/atoll/strtoull are Lean definitions of the "
-                "glibc LP64 behaviour.  `refines` is proved for the variable-level model (elements inside payloads by value) for all "
-                "operations; `deep_refines_partial` for the deep model (what the driver runs) for all paths and all leaves except: typed "
-                "assignment of a temporary HashMap, of a temporary List/Array that contains the destination variable itself, and "
-                "construction from a temporary container (OPEN deep_refines; these are covered by the correspondence run).  The deep "
+                "glibc LP64 behaviour.  `refines` is proved for the variable-level model (elements inside payloads by value) and "
+                "`deep_refines` for the deep model (what the driver runs: nested lazy sharing, destructor cascade), both for all "
+                "operations and all histories; the only hypothesis of `deep_refines` is that literals are null/scalars/strings.  The deep "
                 "model takes an element out of its slot for the time of a nested call and unlinks before it destroys (unobservable "
                 "orderings chosen for the proofs).  Precondition of mutation through an accessor: the source is not the variable being "
                 "accessed (known finding 'self-append', probed on every run).  Reference counts are compared although they are "
